@@ -33,7 +33,16 @@ def named_refs(p):
     return sorted(set(re.findall(r"let @([A-Za-z0-9_$-]+)", "\n".join(p["mods"].values()))))
 
 
-def rand_base(rng, names=()):
+def path_keys(p):
+    """the path patterns of the resources a program declares with literal URIs (as the document spells them)"""
+    import re
+    out = []
+    for m in re.finditer(r"^res ((?:/(?:[\w.~%-]+|\{ '[\w$-]+[!?]? [^}]*\})?)+)", "\n".join(p["mods"].values()), flags=re.M):
+        out.append(re.sub(r"\{ '([\w$-]+)[!?]? [^}]*\}", r"{\1}", m.group(1)))
+    return sorted(set(out))
+
+
+def rand_base(rng, names=(), paths=()):
     """names: names of schema components of the program the base will be merged with (a base may define the same names)"""
     b = {"openapi": rng.choice(["3.0.0", "3.0.1", "3.0.3"]),
          "info": {"title": "T%d" % rng.randrange(100), "version": "%d.0" % rng.randrange(9)}}
@@ -58,6 +67,11 @@ def rand_base(rng, names=()):
         b["paths"] = {"/legacy": {"get": {"responses": {"200": {"description": "ok"}}}}}
     else:
         b["paths"] = {}
+    for pk in paths:
+        if rng.random() < 0.4:      # the same path as a resource of the program: nothing of the base's item survives
+            b["paths"][pk] = {"summary": "stale summary of %s" % pk, "description": "stale", "servers": [{"url": "https://stale.example.com"}],
+                              "parameters": [{"name": "stale", "in": "query", "schema": {"type": "string"}}],
+                              "trace": {"responses": {"200": {"description": "stale operation"}}}}
     if rng.random() < 0.3:          # a specification extension of the Paths Object itself: replaced with the paths
         b["paths"]["x-paths-ext"] = {"owner": "legacy"}
     legacy_ref = "/legacy" in b["paths"] and rng.random() < 0.5
@@ -144,7 +158,7 @@ def check(ctx):
         for i in range(5, n, 25):
             ps[i] = {"mods": {"file:///w/main.oal": "# tags: [t1, extra]\nlet o = get -> <{}>;\nres /tagged%d on o;\n" % i},
                      "main": "file:///w/main.oal", "features": ["op-tags"], "ast": None}
-        bases = [rand_base(ctx.rng, named_refs(p)) for p in ps]
+        bases = [rand_base(ctx.rng, named_refs(p), path_keys(p)) for p in ps]
         for i in (0, 1, 5, 10, 11):        # a base with every section of the format, against each kind of program
             if i < len(bases):
                 bases[i] = json.loads(json.dumps(FULL_BASE))
